@@ -94,6 +94,26 @@ def const_stores(fn, attr):
     return out
 
 
+def open_mode_arg(call):
+    """the mode argument of <path>.open(...) - positional or keyword"""
+    if call.args:
+        return call.args[0]
+    return next((k.value for k in call.keywords if k.arg == "mode"), None)
+
+
+def wrapper_paths(inner, meth):
+    """[(guards, kind, forwards, with_self)] for every way the wrapper function can end"""
+    from ..facts import path_returns
+    selfp = inner.args.args[0].arg
+    out = []
+    for pe in path_returns(inner):
+        nodes = list(pe.effects) + ([pe.value] if pe.value is not None and pe.kind == "return" else [])
+        fwd = sum(1 for r in nodes for x in ast.walk(r) if isinstance(x, ast.Call) and norm(x.func) == meth)
+        with_self = any(isinstance(e, ast.Expr) and isinstance(e.value, ast.Name) and e.value.id == selfp for e in pe.effects)
+        out.append((pe.guards, pe.kind, fwd, with_self, pe))
+    return out
+
+
 def handle_discipline(ct: Container, rep, rule="handle-discipline"):
     tdf = ct.tdf
     mod = ct.mod.path.name
@@ -107,7 +127,8 @@ def handle_discipline(ct: Container, rep, rule="handle-discipline"):
                         n += 1
                         v = st.value
                         okk = f.name == "__enter__" and isinstance(v, ast.Call) and isinstance(v.func, ast.Attribute) and v.func.attr == "open" \
-                            and norm(v.func.value) == "self.file_path" and len(v.args) == 1 and norm(v.args[0]) == "self._mode" and not v.keywords
+                            and norm(v.func.value) == "self.file_path" and len(v.args) + len(v.keywords) == 1 and open_mode_arg(v) is not None \
+                            and norm(ct.facts("__enter__").resolve(open_mode_arg(v))) == "self._mode"
                         if okk:
                             rep.ok(rule, f"Tdf.{f.name}: handle = self.file_path.open(self._mode)", nontrivial=True)
                         else:
@@ -147,18 +168,28 @@ def handle_discipline(ct: Container, rep, rule="handle-discipline"):
         inner = next((s for s in w.node.body if isinstance(s, ast.FunctionDef)), None)
         if inner is None:
             raise AnalysisError(f"tdfUtils.{wname}: no inner wrapper function")
-        # forwards to the wrapped method exactly once on each path: count returns of method(...)
+        # forwards to the wrapped method exactly once on each non-raising path (path summaries)
         meth = w.params[0]
-        fwd = [s for s in walk_no_nested(inner) if isinstance(s, ast.Return) and isinstance(s.value, ast.Call) and norm(s.value.func) == meth]
+        selfp = inner.args.args[0].arg
+        paths = wrapper_paths(inner, meth)
+        live = [p_ for p_ in paths if p_[1] != "raise"]
+        once = bool(live) and all(p_[2] == 1 for p_ in live)
         if wname == "provide_context_if_needed":
-            withs = [s for s in walk_no_nested(inner) if isinstance(s, ast.With) and len(s.items) == 1 and norm(s.items[0].context_expr) == inner.args.args[0].arg]
-            cond_ok = any(isinstance(s, ast.If) and norm(s.test).replace(" ", "") == f"not{inner.args.args[0].arg}._inside_context" for s in inner.body)
-            if withs and cond_ok and len(fwd) == 2:
+            good = once
+            for guards, kind, fwd, with_self, pe in live:
+                for inside in (True, False):
+                    try:
+                        feasible = all(eval_guard(t, (inside, "rb", "none", False)) == pol for t, pol in guards)
+                    except AnalysisError:
+                        feasible = True
+                    if feasible and with_self != (not inside):
+                        good = False
+            if good:
                 rep.ok(rule, "provide_context_if_needed: enters `with self:` (so __exit__ pairs with __enter__) only when not already inside", nontrivial=True)
             else:
                 rep.fail(rule, "tdfUtils.py", wname, inner, "the implicit context is not opened with `with self:` exactly when not inside a context")
         else:
-            if len(fwd) == 1:
+            if once:
                 rep.ok(rule, f"{wname}: forwards to the wrapped method exactly once")
             else:
                 rep.fail(rule, "tdfUtils.py", wname, inner, "the guard wrapper does not forward to the wrapped method exactly once")
@@ -214,7 +245,7 @@ class Model:
                 if isinstance(st, (ast.Assign, ast.AnnAssign)):
                     t = st.targets[0] if isinstance(st, ast.Assign) else st.target
                     if is_self_attr(t, ct.handle) and isinstance(st.value, ast.Call) and isinstance(st.value.func, ast.Attribute) and st.value.func.attr == "open":
-                        a = st.value.args[0] if st.value.args else None
+                        a = open_mode_arg(st.value)
                         out["open"] = ("field" if a is not None and norm(a) == "self._mode" else (a.value if isinstance(a, ast.Constant) else "?"), not on_every_path(f.node, st))
                 if isinstance(st, ast.Expr) and isinstance(st.value, ast.Call) and norm(st.value.func) == f"self.{ct.handle}.close":
                     in_finally = any(isinstance(t, ast.Try) and any(x is st for b in t.finalbody for x in ast.walk(b)) for t in f.node.body)
@@ -310,6 +341,12 @@ def eval_guard(cond, state):
             return mode
         if isinstance(n, ast.Constant):
             return n.value
+        if isinstance(n, ast.Call) and norm(n.func) == "bool" and len(n.args) == 1:
+            return bool(ev(n.args[0]))
+        if isinstance(n, ast.Compare) and len(n.ops) == 1 and isinstance(n.ops[0], (ast.Is, ast.IsNot)) and isinstance(n.comparators[0], ast.Constant) \
+                and isinstance(n.comparators[0].value, bool):
+            r = ev(n.left) is n.comparators[0].value
+            return r if isinstance(n.ops[0], ast.Is) else not r
         if isinstance(n, ast.Compare) and len(n.ops) == 1:
             a, b = ev(n.left), ev(n.comparators[0])
             op = n.ops[0]
@@ -327,17 +364,22 @@ def eval_guard(cond, state):
 
 
 def wrapper_guards(ct: Container):
-    """decorator name -> (guard cond or None, provides context?)"""
+    """decorator name -> (condition under which the wrapper refuses (raises) or None, provides context?) - from the path
+    summaries of the inner wrapper function: the disjunction over its raising paths of the conjunction of their guards"""
+    from ..facts import path_returns
     utils = ct.prog.modules["tdfUtils"]
     out = {}
     for name, w in utils.functions.items():
         inner = next((s for s in w.node.body if isinstance(s, ast.FunctionDef)), None)
         if inner is None:
             continue
-        guard = None
-        for s in inner.body:
-            if isinstance(s, ast.If) and s.body and isinstance(s.body[-1], ast.Raise):
-                guard = s.test
+        disj = []
+        for pe in path_returns(inner):
+            if pe.kind != "raise":
+                continue
+            conj = [t if pol else ast.UnaryOp(op=ast.Not(), operand=t) for t, pol in pe.guards]
+            disj.append(conj[0] if len(conj) == 1 else (ast.BoolOp(op=ast.And(), values=conj) if conj else ast.Constant(value=True)))
+        guard = None if not disj else (disj[0] if len(disj) == 1 else ast.BoolOp(op=ast.Or(), values=disj))
         provides = any(isinstance(s, ast.With) for s in walk_no_nested(inner))
         out[name] = (guard, provides)
     return out
